@@ -7,7 +7,8 @@
 //	                        the transfer / unpack call is returned by the statement that follows it
 //	TransferFiles           hash1 := getHash(src, false); hash2 := getHash(destFile, true) (the destination hash is computed
 //	                        from the transferred file); on a mismatch hash1 is recalculated by getHash(<X>, true) exactly
-//	                        once before the transfer is declared corrupt, and <X> is the SOURCE
+//	                        once before the transfer is declared corrupt, and <X> is the SOURCE; the copy between the two hash
+//	                        computations is unconditional (never skipped because a side file says the destination is equal)
 //	setUpLocalDestination   CleanDir(dest), then Ls(dest) and failure when something is left
 //	unpackPackage…          plain UnzipWithContext (no limits => archives inside the tree are not expanded)
 //	immutable Store         ZipWithContext -> TransferFiles -> Move(package) -> Move(hash side file); the final name is the
@@ -170,6 +171,7 @@ type facts struct {
 	RehashFromSource            bool `json:"rehash_from_source"`
 	RehashOnce                  bool `json:"rehash_once"`
 	DestHashFromTransferredFile bool `json:"dest_hash_from_transferred_file"`
+	TransferAlwaysCopies        bool `json:"transfer_always_copies"`
 	SetupCleanThenCheck         bool `json:"setup_clean_then_check"`
 	UnzipPlain                  bool `json:"unzip_plain"`
 	ImmPartBaseOnly             bool `json:"imm_part_base_only"`
@@ -303,7 +305,7 @@ func transferFacts(fd *ast.FuncDecl, f *facts) {
 			case "!strings.EqualFold(hash1, hash2)":
 				mism = append(mism, i)
 			default:
-				if strings.Contains(src(is.Cond), "hash1") || strings.Contains(src(is.Cond), "hash2") {
+				if strings.Contains(src(is.Cond), "hash2") {
 					die(is.Pos(), "TransferFiles: unknown comparison of the hashes: %s", src(is.Cond))
 				}
 			}
@@ -315,9 +317,40 @@ func transferFacts(fd *ast.FuncDecl, f *facts) {
 	if file, force := getHashArgs(callOf(body[i1])); file != "src" || force != "false" {
 		die(body[i1].Pos(), "TransferFiles: hash1 is getHash(%s, %s)", file, force)
 	}
+	// the copy: unconditional, at top level between the two hash computations, and nothing between hash1 and the copy
+	// leaves the function or branches except the error return of hash1 itself. A copy nested in an `if`, or an early
+	// return on some condition (e.g. "the destination already holds that hash"), is the known shape "conditional copy".
 	iCopy := findTop(fd, "CopyWithContext")
-	if iCopy < i1 || iCopy > i2 {
-		die(fd.Pos(), "TransferFiles: the copy is not between the two hash computations")
+	if iCopy >= 0 {
+		if iCopy < i1 || iCopy > i2 {
+			die(fd.Pos(), "TransferFiles: the copy is not between the two hash computations")
+		}
+		f.TransferAlwaysCopies = true
+		for i := i1 + 1; i < iCopy; i++ {
+			if i == i1+1 && isErrReturnIf(body[i]) {
+				continue
+			}
+			switch body[i].(type) {
+			case *ast.IfStmt, *ast.ReturnStmt, *ast.SwitchStmt, *ast.ForStmt, *ast.BranchStmt, *ast.LabeledStmt:
+				f.TransferAlwaysCopies = false
+			}
+		}
+	} else {
+		nested := 0
+		for i := i1 + 1; i < i2; i++ {
+			if is, ok := body[i].(*ast.IfStmt); ok {
+				ast.Inspect(is, func(nd ast.Node) bool {
+					if c, ok := nd.(*ast.CallExpr); ok && selName(c) == "CopyWithContext" {
+						nested++
+					}
+					return true
+				})
+			}
+		}
+		if nested != 1 {
+			die(fd.Pos(), "TransferFiles: %d copies between the two hash computations", nested)
+		}
+		f.TransferAlwaysCopies = false
 	}
 	file2, force2 := getHashArgs(callOf(body[i2]))
 	f.DestHashFromTransferredFile = file2 == "destFile" && force2 == "true"
@@ -595,6 +628,7 @@ func main() {
 	fmt.Fprintf(&v, "  f_rehash_from_source := %s;\n", b(f.RehashFromSource))
 	fmt.Fprintf(&v, "  f_rehash_once := %s;\n", b(f.RehashOnce))
 	fmt.Fprintf(&v, "  f_dest_hash_from_transferred_file := %s;\n", b(f.DestHashFromTransferredFile))
+	fmt.Fprintf(&v, "  f_transfer_always_copies := %s;\n", b(f.TransferAlwaysCopies))
 	fmt.Fprintf(&v, "  f_setup_clean_then_check := %s;\n", b(f.SetupCleanThenCheck))
 	fmt.Fprintf(&v, "  f_unzip_plain := %s;\n", b(f.UnzipPlain))
 	fmt.Fprintf(&v, "  f_imm_part_base_only := %s;\n", b(f.ImmPartBaseOnly))
